@@ -833,6 +833,87 @@ class Agl(Unit):
         rec.nontrivial_n(n)
 
 
+# ---------------------------------------------------------------- Type 1 font program writer / reader
+class Type1Charstrings(Unit):
+    name = "type1-charstrings"
+    rule = ("Type 1 charstring encryption as the font writer and reader use it: the repository's Type 1 test font with /lenIV in {absent,0,1,2,3,4} (placed before /Subrs), its Subrs replaced by "
+            "every one-byte program, every three-byte program (v, 255-v, v) and the empty one (16 blocks of 16 byte values), its CharStrings by byte ramps of length 0..6; "
+            "T1Font.createData -> parse, and saveAs in each of PFA (hex), PFB (segments) and raw binary -> T1Font(path).parse: every subroutine and charstring reads back byte-identical and "
+            "lenIV is preserved; distinct = each (lenIV, block, container)")
+    chunk = 4
+    required_witnesses = ("lenIV absent", "lenIV 0", "lenIV 3", "container PFA", "container PFB", "container OTHER", "subroutines compared")
+
+    def cases(self, tier, seed):
+        for lenIV in (None, 0, 1, 2, 3, 4):
+            for blk in range(16):
+                yield [lenIV, blk]
+
+    @staticmethod
+    def _load(data=None):
+        import os
+        from fontTools.t1Lib import T1Font
+        if data is None:
+            f = T1Font(os.path.join(env.REPO, "Tests", "t1Lib", "data", "TestT1-Regular.pfa"))
+        else:
+            f = T1Font.__new__(T1Font)
+            f.data = data
+            f.encoding = "ascii"
+        f.parse()
+        return f
+
+    def check(self, case, rec):
+        import os, tempfile
+        from fontTools.t1Lib import T1Font
+        from fontTools.misc.psCharStrings import T1CharString
+        lenIV, blk = case
+        f = self._load()
+        priv = f.font["Private"]
+        items = [(k, v) for k, v in priv.items() if k != "lenIV"]
+        priv.clear()
+        if lenIV is not None:
+            priv["lenIV"] = lenIV
+        priv.update(items)
+        vals = range(16 * blk, 16 * blk + 16)
+        subrs = [T1CharString(bytecode=bytes([v])) for v in vals] + [T1CharString(bytecode=bytes([v, 255 - v, v])) for v in vals] + [T1CharString(bytecode=b"")]
+        priv["Subrs"] = subrs
+        cs = f.font["CharStrings"]
+        for i, n in enumerate(list(cs)):
+            cs[n] = T1CharString(bytecode=bytes([(i * 37 + j + 16 * blk) & 255 for j in range(i % 7)]))
+        want_s = [bytes(x.bytecode) for x in subrs]
+        want_c = {n: bytes(c.bytecode) for n, c in cs.items()}
+        rec.witness("lenIV absent" if lenIV is None else "lenIV %d" % lenIV)
+
+        def judge(g, how):
+            rec.nontrivial(key=[lenIV, blk, how])
+            if g["Private"].get("lenIV", 4) != (4 if lenIV is None else lenIV):
+                rec.violation("type1:lenIV:" + how, "lenIV %r read back as %r" % (lenIV, g["Private"].get("lenIV")))
+            got_s = [bytes(x.bytecode) for x in g["Private"]["Subrs"]]
+            got_c = {n: bytes(c.bytecode) for n, c in g["CharStrings"].items()}
+            rec.witness("subroutines compared")
+            if got_s != want_s:
+                bad = [i for i, (a, b) in enumerate(zip(want_s, got_s)) if a != b]
+                rec.violation("type1:subrs:" + how, "lenIV=%r: %d of %d subroutines differ after write+read, e.g. #%s written %s read %s"
+                              % (lenIV, len(bad), len(want_s), bad[:1], want_s[bad[0]].hex() if bad else "-", got_s[bad[0]].hex() if bad else "(count %d)" % len(got_s)))
+            if got_c != want_c:
+                bad = sorted(n for n in want_c if want_c[n] != got_c.get(n))
+                rec.violation("type1:charstrings:" + how, "lenIV=%r: %d of %d charstrings differ after write+read, e.g. %s" % (lenIV, len(bad), len(want_c), bad[:1]))
+
+        data = f.createData()
+        judge(self._load(data), "createData")
+        for fmt, suffix in (("PFA", ".pfa"), ("PFB", ".pfb"), ("OTHER", ".t1")):
+            fd, path = tempfile.mkstemp(suffix=suffix, dir="/dev/shm" if os.path.isdir("/dev/shm") else None)
+            os.close(fd)
+            try:
+                f.saveAs(path, fmt)
+                h = T1Font(path)
+                h.parse()
+                rec.witness("container " + fmt)
+                judge(h, fmt)
+            finally:
+                if os.path.exists(path):
+                    os.unlink(path)
+
+
 def units():
     return [F2Dot14(), Fixed1616(), OtRound(), IntOperands(), RealOperands(), Base128(), U255(), Uint32Var(),
-            PackedPoints(), PackedDeltas(), Eexec(), Sstruct(), TimeStamps(), Tags(), SparseBitSet(), Agl()]
+            PackedPoints(), PackedDeltas(), Eexec(), Sstruct(), TimeStamps(), Tags(), SparseBitSet(), Agl(), Type1Charstrings()]
